@@ -2,3 +2,6 @@ pub mod unit;
 mod api;
 #[cfg(feature = "verif-hooks")]
 pub mod verif;
+
+#[cfg(feature = "verif-hooks")]
+pub mod verif_c12;
